@@ -1,6 +1,6 @@
 (* Properties/C06.v — After faults stop, sharding recovers: nothing stuck, nothing unscraped. *)
 From KV Require Import Base.Util Base.AMap Base.Sched Gen.Consts Model.Coordinator Model.CoordCheck Model.Sidecar Model.World
-                       Proofs.CoordBasics Proofs.SidecarProofs Proofs.WorldProofs.
+                       Proofs.CoordBasics Proofs.SidecarProofs Proofs.WorldProofs Proofs.WorldNoGap.
 Local Open Scope list_scope.
 Local Open Scope Z_scope.
 
@@ -73,3 +73,20 @@ Example C06_example_recovers :
   length (flat_map (fun s => s) (placement (obs_of_world w1))) = 2%nat /\       (* the move never arrived *)
   converged f_opts f_truth act (obs_of_world w4) = true.
 Proof. vm_compute. repeat split. Qed.
+
+(* no fault ever makes the system lose a target: through every history of cycles with ANY faults (updates that do not
+   arrive, shards unreachable / not ready / refusing the configuration) under ANY schedule, scrape rounds, ticks and
+   sidecar restarts, the whole-world invariant (well-formed and persisted sidecars, at most max-shard shards) is kept
+   and a discovered target that some sidecar holds is held by some sidecar after every step: what faults can leave
+   behind is duplicates and pending transfers (handled above), never an unscraped target that was scraped before *)
+Theorem C06_invariant_kept_by_faulty_cycle : forall o tru w f sch,
+  min_shard o <= max_shard o -> winv o w -> winv o (model_cycle o tru w f sch).
+Proof. exact winv_cycle. Qed.
+Print Assumptions C06_invariant_kept_by_faulty_cycle.
+
+Theorem C06_no_target_lost_by_faults : forall o tru h, min_shard o <= max_shard o ->
+  forall steps w,
+  winv o w -> In h (w_active w) -> (forall hs sch, In (LSetActive hs, sch) steps -> In h hs) ->
+  held w h -> held (fold_left (hist_step o tru) steps w) h.
+Proof. exact history_no_gap. Qed.
+Print Assumptions C06_no_target_lost_by_faults.
